@@ -147,6 +147,18 @@ func GenShapes(shapes []Shape, id, pkgRel string) *Scenario {
 		s.Feature("profile", "shapes8")
 		return s
 	}
+	if h%3 == 1 && len(methods) >= 2 {
+		// the first method is declared in an ordinary interface of the file that Convergen embeds: a method of the
+		// converter interface like any other, with its notations
+		base := &Iface{Name: "ShapeBase", Converter: false, Methods: []*Method{methods[0]}}
+		b.S.Ifaces = append(b.S.Ifaces, base)
+		b.S.Ifaces = append(b.S.Ifaces, &Iface{Name: "Convergen", Converter: true, Methods: methods, Embeds: []*Iface{base}})
+		b.S.Feature("profile", "corpus")
+		b.S.Feature("embeds", "1")
+		s := b.Finish()
+		s.Feature("profile", "shapes8")
+		return s
+	}
 	s := b.Manual(methods...)
 	s.Feature("profile", "shapes8")
 	return s
